@@ -1,6 +1,6 @@
 ENTRY = dict(
     gen=["parrots"],
-    runner="C12", pkg="./cmd/c12", corr=["Corr.C12Corr"], n=dict(quick=730, thorough=4500), runner_timeout=900,
+    runner="C12", pkg="./cmd/c12", corr=["Corr.C12Corr"], n=dict(quick=910, thorough=5500), runner_timeout=900,
     rule="every predefined parrot (38 ClientHelloIDs accepted by UTLSIdToSpec) over loopback TCP against the scripted server "
          "(verif_server.go), which forces ONE selection at a time drawn at run time from the complement of that very connection's "
          "parsed wire ClientHello: TLS 1.3 suite (implemented-but-unoffered, another GREASE value, unimplemented CCM suite, a TLS 1.2 "
@@ -16,7 +16,10 @@ ENTRY = dict(
          "BuildHandshakeState (compress_certificate, ALPN, key_share entries or the whole extension, supported_groups entries or the whole "
          "extension, suites): the server selects a value the EARLIER hello offered and the one on the wire does not; (c) resumption: a session "
          "with suite 0xc009 from a real first connection handed with SetSessionState (or through the cache) to clients that do not offer it, "
-         "resumed by the server; own-session ticket resumption; TLS 1.3 PSK accepted under a suite of another hash. Quick: every 'real' variant and the controls of every parrot, other variants "
+         "resumed by the server; own-session ticket resumption; TLS 1.3 PSK accepted under a suite of another hash; (d) hellos whose only key share is a "
+         "hybrid one (the server answers X25519 with the classical half of that share as client key), classical-only / second-share-only subsets, every "
+         "implemented group without a share forced in turn. After EVERY handshake - completed or aborted - the suite, group and ALPN the "
+         "connection reports are compared with the wire hello (oracle) and with Model/NegotiateReport.v. Quick: every 'real' variant and the controls of every parrot, other variants "
          "rotate with the seed; thorough: full product, randomised variants three times. A case is distinct by "
          "(kind, variant, parrot, forced value); non-trivial when the forced value is unoffered or the handshake completed.",
     trusted_base=["verif_server.go scripted server (built from the library's own server sub-steps) and verif_c12.go view accessors",
